@@ -181,15 +181,8 @@ type poolRun struct {
 	// a reorganisation whose re-injection is judged after the delayed reset
 	pendingReorg    [2]int
 	hasPendingReorg bool
-	// which limit clauses are judged at this rest point: the pool enforces its
-	// limits when it processes a submission (for the submitting accounts, and the
-	// pool-wide ones) and when it processes a head change (for everybody);
-	// demotions caused by SetGasPrice or by evictions may overshoot in between
-	limAll bool
 	// the last add found the pool at its global capacity
 	lastAddPoolFull bool
-	limAccts        map[common.Address]bool
-	limGlobal       bool
 }
 
 func (r *poolRun) add(class, format string, a ...any) {
@@ -243,7 +236,7 @@ func execPool(p *PoolPlan, col *kernel.Collector) []kernel.Violation {
 	for i, op := range p.Ops {
 		col.Tick()
 		r.step = i
-		r.limAll, r.limGlobal, r.limAccts, r.lastAddPoolFull = false, false, map[common.Address]bool{}, false
+		r.lastAddPoolFull = false
 		switch op.Kind {
 		case "add":
 			r.opAdd(op)
@@ -257,16 +250,11 @@ func execPool(p *PoolPlan, col *kernel.Collector) []kernel.Violation {
 			col.AddSim(time.Duration(op.Ms) * time.Millisecond)
 			col.Inc("fault_clock_advance")
 		case "reset":
-			released := false
 			for _, a := range s.Parked() {
 				s.Release(a)
-				released = true
 				col.Inc("probe_reset_delayed_past_submissions")
 			}
 			synctest.Wait()
-			if released {
-				r.limAll, r.limGlobal = true, true
-			}
 			if r.hasPendingReorg && len(s.Parked()) == 0 {
 				r.hasPendingReorg = false
 				r.checkReinjection(r.pendingReorg[0], r.pendingReorg[1])
@@ -386,13 +374,6 @@ func (r *poolRun) opAdd(op PoolOp) {
 		errs = r.pool.AddRemotes(txs)
 	}
 	r.col.Add("op_add_txs", int64(len(txs)))
-	for i, tx := range txs {
-		// the limiter runs for the accounts whose submission was accepted
-		if from, err := types.Sender(r.signer, tx); err == nil && i < len(errs) && errs[i] == nil {
-			r.limAccts[from] = true
-			r.limGlobal = true
-		}
-	}
 	synctest.Wait()
 	after := r.pooled()
 	if os.Getenv("VERIF_DEBUG") != "" {
@@ -468,9 +449,6 @@ func (r *poolRun) opInsert(op PoolOp) {
 	synctest.Wait()
 	after := r.n.HeadID()
 	r.col.Inc("op_head_changes")
-	if after != before && len(r.s.Parked()) == 0 {
-		r.limAll, r.limGlobal = true, true
-	}
 	if before < 0 || after < 0 || after == before || u.IsAncestor(before, after) {
 		return
 	}
@@ -592,20 +570,13 @@ func (r *poolRun) invariants() {
 			continue
 		}
 		queuedNonLocal += len(txs)
-		if uint64(len(txs)) > r.p.Cfg.AccountQueue && (r.limAll || r.limAccts[a]) {
+		// the limits hold at every rest point (also right after an eviction from a full pool
+		// or a price-threshold change demoted pending transactions into a queue)
+		if uint64(len(txs)) > r.p.Cfg.AccountQueue {
 			class := "account-queue-limit-exceeded"
-			if r.lastAddPoolFull && !r.limAll {
-				// eviction from a full pool demoted pending transactions into a queue whose
-				// limit is enforced only by the next promotion run for that account
-				class += "/after-eviction-from-a-full-pool"
-			}
 			r.add(class, "non-local sender %x has %d queued transactions, limit %d", a[:4], len(txs), r.p.Cfg.AccountQueue)
 			return
 		}
-	}
-	if !r.limGlobal {
-		r.col.Inc("rest_points_checked")
-		return
 	}
 	if uint64(queuedNonLocal) > r.p.Cfg.GlobalQueue {
 		r.add("global-queue-limit-exceeded", "%d queued transactions of non-local senders, limit %d", queuedNonLocal, r.p.Cfg.GlobalQueue)
